@@ -292,7 +292,7 @@ fn handle_line(sess: &mut Option<Session>, scratch: &str, line: &str) -> String 
         }
     };
     match cmd {
-        "EVAL" => {
+        "EVAL" | "EVALBIG" => {
             let text = unescape(rest);
             let r = s.ctx.eval_string(&text);
             fmt_result(&s.ctx, r, "canon")
@@ -404,9 +404,16 @@ fn main_loop() {
     let scratch = std::env::var("HARNESS_SCRATCH").unwrap_or_else(|_| "/verif/run/files".to_string());
     let _ = std::fs::create_dir_all(&scratch);
     let stdin = std::io::stdin();
-    let stdout = std::io::stdout();
-    let mut out = std::io::BufWriter::new(stdout.lock());
+    // Answers go to the file named by HARNESS_OUT when set (print / princ write to stdout).
+    let sink: Box<dyn Write> = match std::env::var("HARNESS_OUT") {
+        Ok(p) => Box::new(std::fs::File::create(p).expect("HARNESS_OUT")),
+        Err(_) => Box::new(std::io::stdout()),
+    };
+    let mut out = std::io::BufWriter::new(sink);
     let mut sess: Option<Session> = None;
+    // other live sessions (CTX n parks the current one and makes session n current)
+    let mut parked: std::collections::HashMap<u32, Option<Session>> = std::collections::HashMap::new();
+    let mut current: u32 = 0;
     let flush_each = std::env::var("HARNESS_FLUSH").is_ok();
     for line in stdin.lock().lines() {
         let line = match line {
@@ -414,6 +421,16 @@ fn main_loop() {
             Err(_) => break,
         };
         let line = line.trim_end_matches(['\n', '\r']);
+        if let Some(n) = line.strip_prefix("CTX ") {
+            let n: u32 = n.trim().parse().unwrap_or(0);
+            if n != current {
+                parked.insert(current, sess.take());
+                sess = parked.remove(&n).unwrap_or(None);
+                current = n;
+            }
+            let _ = writeln!(out, "OK");
+            continue;
+        }
         let res = catch_unwind(AssertUnwindSafe(|| handle_line(&mut sess, &scratch, line)));
         let ans = match res {
             Ok(a) => a,
